@@ -148,7 +148,9 @@ Proof.
     pose proof (call_c12 (r_cfg r) (lookup r) (r_now r) (r_dealer r) s req opts proc args kw oracle Wd LOK) as CF.
     destruct (call _ _ _ _ _ _ _ _ _ _ _) as [d o|o|d callee' o].
     + cbn [fst]. apply (rkept_dk r o (r_set_dealer r d)). exact (proj1 CF).
-    + specialize (Lv r Same). destruct (leave r (s_id s)) as [r1 o1]. exact Lv.
+    + cbv zeta. specialize (Lv (r_set_dealer r (call_abort_dealer (lookup r) (r_dealer r) s req opts proc oracle))
+                       (rkept_dk r [] (r_set_dealer r (call_abort_dealer (lookup r) (r_dealer r) s req opts proc oracle)) (call_abort_dk (lookup r) (r_dealer r) s req opts proc oracle Wd))).
+      destruct (leave _ (s_id s)) as [r1 o1]. exact Lv.
     + destruct CF as (K & _).
       pose proof (run_meta_invocation_rk (update_session (r_set_dealer r d) callee') o oracle) as R.
       eapply rkept_trans; [|exact R]. apply (rkept_dk r o).
